@@ -348,14 +348,14 @@ def asan_site(err):
                "include/manifold/vec_view.h")
     first = None
     for line in err.split("\n"):
-        m = re.search(r"#\d+ 0x[0-9a-f]+ in (.+?) (/repo/(?:src|include)/[^\s:]+):\d+", line)
+        m = re.search(r"#\d+ 0x[0-9a-f]+ in (.+?) /[^\s:]*?/((?:src|include/manifold)/[^\s:/]+):\d+", line)
         if not m:
             continue
         fn = m.group(1)
         fn = re.sub(r"\(.*$", "", fn)            # drop the argument list
         fn = re.sub(r"<.*>", "", fn)              # and template arguments
         fn = fn.split("::")[-1].strip() or "?"
-        site = "%s:%s" % (m.group(2).replace("/repo/", ""), fn)
+        site = "%s:%s" % (m.group(2), fn)  # path relative to the source tree, wherever it is checked out
         if first is None:
             first = site
         if not site.startswith(generic):
